@@ -215,3 +215,7 @@ def run(ctx):
     c10.rule_read_set(ctx, "R5.3")
     rule_no_shared_state(ctx)
     rule_one_per_violation(ctx)
+    # R5.6: a keyword that abandons a sub-validation (not, contains, oneOf, if) must not leave a resolution scope behind for
+    # its siblings: push/pop pairing on every exit
+    from . import scope
+    scope.rule_pairing(ctx, "R5.6")
